@@ -10,6 +10,8 @@ import (
 	"fmt"
 	"math/rand"
 	"net/http/httptest"
+	"os"
+	"runtime"
 	"strings"
 	"sync"
 	"sync/atomic"
@@ -30,6 +32,35 @@ type c12Result struct {
 type c12Step struct {
 	Op string `json:"op"` // reg unreg lstart lend call
 	N  string `json:"n,omitempty"`
+}
+
+// waitOrDeadlock waits for a workload; when it does not finish and goroutines are blocked on a lock inside the library, the
+// process dies the way a deadlocked program is reported (the registry operations of the statement always complete).
+func waitOrDeadlock(wait func(), d time.Duration, what string) {
+	done := make(chan struct{})
+	go func() { wait(); close(done) }()
+	select {
+	case <-done:
+		return
+	case <-time.After(d):
+	}
+	buf := make([]byte, 8<<20)
+	n := runtime.Stack(buf, true)
+	var blocked []string
+	for _, g := range strings.Split(string(buf[:n]), "\n\n") {
+		if strings.Contains(g, "trpc-mcp-go.") && (strings.Contains(g, "sync.(*RWMutex)") || strings.Contains(g, "sync.(*Mutex)")) {
+			blocked = append(blocked, g)
+		}
+	}
+	if len(blocked) == 0 {
+		fmt.Fprintf(os.Stderr, "watchdog: %s did not finish within %v, and no library goroutine is blocked on a lock\n", what, d)
+		os.Exit(4)
+	}
+	if len(blocked) > 4 {
+		blocked = blocked[:4]
+	}
+	fmt.Fprintf(os.Stderr, "fatal error: deadlock (verif watchdog): %s did not finish within %v; goroutines blocked on a lock inside the library:\n\n%s\n", what, d, strings.Join(blocked, "\n\n"))
+	os.Exit(2)
 }
 
 func c12Run(id, kind string, seed int64, nworkers, nops, stormMs int) (res c12Result) {
@@ -197,7 +228,7 @@ func c12RunSched(id, kind string, seed int64, nworkers, nops, stormMs int, sched
 		if !released {
 			close(gateCh)
 		}
-		swg.Wait()
+		waitOrDeadlock(swg.Wait, 30*time.Second, "the forced registry schedule")
 		res.NotifOK = true
 		res.Trace = trace
 		return
@@ -274,7 +305,7 @@ func c12RunSched(id, kind string, seed int64, nworkers, nops, stormMs int, sched
 			peer.PostJSON(ctx, url, nil, []byte(fmt.Sprintf(`{"jsonrpc":"2.0","method":"notifications/churn%d"}`, i%3)), false)
 		}
 	}()
-	wg.Wait()
+	waitOrDeadlock(wg.Wait, 30*time.Second, "the registry workload")
 	// crash storm: tight re-registration against tight readers (a missing lock on a read path kills the process)
 	if stormMs > 0 {
 		stop := make(chan struct{})
@@ -316,7 +347,7 @@ func c12RunSched(id, kind string, seed int64, nworkers, nops, stormMs int, sched
 		}
 		time.Sleep(time.Duration(stormMs) * time.Millisecond)
 		close(stop)
-		sw.Wait()
+		waitOrDeadlock(sw.Wait, 30*time.Second, "the re-registration storm")
 	}
 	res.NotifOK = atomic.LoadInt64(&got) == sent
 	if !res.NotifOK {
